@@ -1151,6 +1151,60 @@ Section Real.
       exists v2. split; [exact Hv2|]. unfold VF. cbn [map rsum]. eapply FBrel_trans; eassumption.
   Qed.
 
+  (* the same, separately for fb (biases acting on the reported / extended coordinate) and fb_actual (biases with
+     bypassExtendedLagrangian, acting on the actual coordinate): both carry the bias's own time-step factor *)
+  Definition bforce_n (b : bias) (i : nat) : R := if b_bypass b then 0 else bforce b i.
+  Definition bforce_a (b : bias) (i : nat) : R := if b_bypass b then bforce b i else 0.
+  Definition VFn (bs : list bias) (i : nat) : R := rsum (map (fun b => bforce_n b i) bs).
+  Definition VFa (bs : list bias) (i : nat) : R := rsum (map (fun b => bforce_a b i) bs).
+
+  Lemma VF_split (bs : list bias) i : VF bs i = VFn bs i + VFa bs i.
+  Proof.
+    unfold VF, VFn, VFa. rewrite <- rsum_map_add. apply rsum_map_ext. intros b _.
+    unfold bforce_n, bforce_a. destruct (b_bypass b); lra.
+  Qed.
+
+  Lemma add_forces_fb byp t ids : forall fs vs i v,
+    nth_error vs i = Some v ->
+    exists v', nth_error (fst (add_forces Rops byp t ids fs vs)) i = Some v' /\
+               v_fb v' = v_fb v + (if byp then 0 else t * contrib ids fs i).
+  Proof.
+    induction ids as [|j r IH]; intros fs vs i v Hi.
+    - cbn [add_forces fst contrib]. exists v. split; [exact Hi|]. destruct byp; lra.
+    - destruct fs as [|f fs'].
+      + cbn [add_forces fst contrib]. exists v. split; [exact Hi|]. destruct byp; lra.
+      + cbn [add_forces contrib].
+        set (u := fun v : var => if byp then set_vfb v (v_fb v) (nadd Rops (v_fba v) (nmul Rops t f))
+                                else set_vfb v (nadd Rops (v_fb v) (nmul Rops t f)) (v_fba v)).
+        specialize (IH fs' (upd_nth vs j u) i).
+        destruct (add_forces Rops byp t r fs' (upd_nth vs j u)) as [vs2 e2]. cbn [fst] in *.
+        assert (Hu : exists v1, nth_error (upd_nth vs j u) i = Some v1 /\
+                                v_fb v1 = v_fb v + (if byp then 0 else if Nat.eqb j i then t * f else 0)).
+        { rewrite upd_nth_nth, Hi. rewrite (Nat.eqb_sym j i). destruct (Nat.eqb i j).
+          - cbn [option_map]. eexists; split; [reflexivity|]. unfold u. destruct byp; destruct v; cbn; rops; lra.
+          - exists v. split; [reflexivity|]. destruct byp; lra. }
+        destruct Hu as (v1 & Hv1 & R1). destruct (IH v1 Hv1) as (v' & Hv' & R2).
+        exists v'. split; [exact Hv'|]. rewrite R2, R1. destruct byp; [lra|]. destruct (Nat.eqb j i); lra.
+  Qed.
+
+  Lemma communicate_biases_fb bs : forall vs i v,
+    nth_error vs i = Some v ->
+    exists v', nth_error (fst (communicate_biases Rops bs vs)) i = Some v' /\ v_fb v' = v_fb v + VFn bs i.
+  Proof.
+    induction bs as [|b r IH]; intros vs i v Hi.
+    - cbn [communicate_biases fst]. exists v. split; [exact Hi|]. unfold VFn. cbn. lra.
+    - cbn [communicate_biases].
+      assert (H1 : exists v1, nth_error (fst (communicate_bias Rops b vs)) i = Some v1 /\ v_fb v1 = v_fb v + bforce_n b i).
+      { unfold communicate_bias, bforce_n, bforce. destruct (b_active b && b_apply b).
+        - destruct (add_forces_fb (b_bypass b) (nofZ Rops (b_tsf b)) (b_vars b) (b_forces b) vs i v Hi) as (v1 & A & B).
+          exists v1. split; [exact A|]. rewrite B. destruct (b_bypass b); rops; lra.
+        - cbn [fst]. exists v. split; [exact Hi|]. destruct (b_bypass b); lra. }
+      destruct (communicate_bias Rops b vs) as [vs1 e1]. cbn [fst] in *.
+      destruct H1 as (v1 & Hv1 & R1). destruct (IH vs1 i v1 Hv1) as (v2 & Hv2 & R2).
+      destruct (communicate_biases Rops r vs1) as [vs2 e2]. cbn [fst] in *.
+      exists v2. split; [exact Hv2|]. unfold VFn in *. cbn [map rsum]. lra.
+  Qed.
+
   (* no reference from an active applying bias: no force *)
   Lemma bforce_zero (b : bias) i : c_app b i = 0%Z -> bforce b i = 0.
   Proof.
@@ -1274,7 +1328,8 @@ Section Real.
     let bs2 := map (bias_step it (length vs) xs) bs in
     snd (fst (fst r)) = bs2 /\ VInv bs2 (fst (fst (fst r))) /\ length (fst (fst (fst r))) = length vs /\
     snd r = EN bs2 /\ (forall k, coord_force Rops (fst (fst (fst r))) k = CF bs2 xs (length vs) k) /\
-    Forall (var_sched it) (fst (fst (fst r))).
+    Forall (var_sched it) (fst (fst (fst r))) /\
+    (forall i v, nth_error (fst (fst (fst r))) i = Some v -> v_fb v = VFn bs2 i /\ v_fba v = VFa bs2 i).
   Proof.
     intros H. cbn zeta. unfold calc.
     destruct (wake_biases_spec fixed it bs [] vs H) as (W1 & W2 & W3).
@@ -1294,13 +1349,15 @@ Section Real.
     assert (B2 : bs2 = map (bias_step it (length vs) xs) bs).
     { unfold bs2, bs1, bias_step. rewrite map_map. reflexivity. }
     destruct (communicate_biases_rel bs2 (reset_fb Rops vs2)) as [L4 H4].
+    pose proof (communicate_biases_fb bs2 (reset_fb Rops vs2)) as H4f.
     destruct (communicate_biases Rops bs2 (reset_fb Rops vs2)) as [vs4 e3]. cbn [fst snd] in *.
     rewrite <- B2.
     assert (L3 : length (reset_fb Rops vs2) = length vs2) by (unfold reset_fb; apply map_length).
     (* per-variable description of the final list *)
     assert (P : forall i v5, nth_error (map (update_force Rops) vs4) i = Some v5 ->
               exists v2, nth_error vs2 i = Some v2 /\ same_deps v2 v5 /\
-                         (forall k, vterm k v5 = VF bs2 i * gsum (nth i xs []) k) /\ var_sched it v2).
+                         (forall k, vterm k v5 = VF bs2 i * gsum (nth i xs []) k) /\ var_sched it v2 /\
+                         v_fb v5 = VFn bs2 i /\ v_fba v5 = VFa bs2 i).
     { intros i v5 Hi. rewrite nth_error_map in Hi.
       destruct (nth_error vs4 i) as [v4|] eqn:E4; [|discriminate]. cbn in Hi. inversion Hi; subst v5. clear Hi.
       assert (Li : (i < length vs2)%nat).
@@ -1337,8 +1394,14 @@ Section Real.
         - intros Z0. apply VF_zero. rewrite Q2. exact Z0.
         - exact Hcs.
         - exact Rel. }
-      split; [apply (G 0%nat)|]. split; [intros k; apply (G k) | exact Hsch]. }
-    split; [reflexivity|]. split; [|split; [|split; [|split]]].
+      split; [apply (G 0%nat)|]. split; [intros k; apply (G k)|]. split; [exact Hsch|].
+      destruct (H4f i _ E3) as (v4' & E4' & Rfb). rewrite E4 in E4'. inversion E4'; subst v4'. clear E4'.
+      destruct Rel as (_ & _ & _ & Rsum).
+      assert (F1 : v_fb v4 = VFn bs2 i) by (rewrite Rfb; destruct v2; cbn; lra).
+      assert (F2 : v_fba v4 = VFa bs2 i).
+      { pose proof (VF_split bs2 i) as Sp. destruct v2; cbn in *; lra. }
+      unfold update_force. destruct (v_active v4); destruct v4; cbn in *; auto. }
+    split; [reflexivity|]. split; [|split; [|split; [|split; [|split]]]].
     - (* VInv *)
       intros i v5 Hi. destruct (P i v5 Hi) as (v2 & E2 & SD & _ & _).
       destruct (refs_update_pure it (length vs) xs bs1 i) as [Q1 Q2]. fold bs2 in Q1, Q2.
@@ -1347,10 +1410,11 @@ Section Real.
     - apply total_energy_closed.
     - intros k. rewrite coord_force_closed. unfold CF.
       replace (length vs) with (length (map (update_force Rops) vs4)) by (rewrite map_length; lia).
-      apply rsum_index. intros i v5 Hi. destruct (P i v5 Hi) as (_ & _ & _ & G & _). cbn [Nat.add]. apply G.
+      apply rsum_index. intros i v5 Hi. destruct (P i v5 Hi) as (_ & _ & _ & G & _ & _). cbn [Nat.add]. apply G.
     - apply Forall_forall. intros v5 Hv. apply In_nth_error in Hv. destruct Hv as [i Hi].
-      destruct (P i v5 Hi) as (v2 & _ & (D1 & D2 & D3 & _ & _ & D6) & _ & Hs).
+      destruct (P i v5 Hi) as (v2 & _ & (D1 & D2 & D3 & _ & _ & D6) & _ & Hs & _).
       intros Hf Ht. unfold var_sched in Hs. rewrite D6 in Ht |- *. rewrite D1, D2, D3. apply Hs; assumption.
+    - intros i v5 Hi. destruct (P i v5 Hi) as (_ & _ & _ & _ & _ & F1 & F2). auto.
   Qed.
 
   Lemma calc_closed it vs (bs : list bias) xs :
@@ -1359,7 +1423,7 @@ Section Real.
     let bs2 := map (bias_step it (length vs) xs) bs in
     snd (fst (fst r)) = bs2 /\ VInv bs2 (fst (fst (fst r))) /\ length (fst (fst (fst r))) = length vs /\
     snd r = EN bs2 /\ forall k, coord_force Rops (fst (fst (fst r))) k = CF bs2 xs (length vs) k.
-  Proof. intros H. destruct (calc_closed_full it vs bs xs H) as (A & B & C & D & E & _). auto. Qed.
+  Proof. intros H. destruct (calc_closed_full it vs bs xs H) as (A & B & C & D & E & _ & _). auto. Qed.
 
   (* ---- whole runs ------------------------------------------------------------------------------------ *)
   (* the history of the biases is a function of the biases, the step numbers and the imposed values *)
@@ -1462,7 +1526,7 @@ Section Real.
     intros Hf H. unfold do_calc.
     pose proof (calc_closed_full it (m_vars m) (m_biases m) xs H) as C. cbn zeta in C.
     destruct (calc Rops fixed efix it (m_vars m) (m_biases m) xs) as [[[vs bs] e] en].
-    cbn [fst snd] in *. destruct C as (C1 & C2 & C3 & C4 & C5 & C6).
+    cbn [fst snd] in *. destruct C as (C1 & C2 & C3 & C4 & C5 & C6 & _).
     constructor; [|constructor]. unfold var_sched_out. cbn [o_vars o_it o_biases].
     intros i v Hi Ht.
     assert (Hin : In v vs) by (eapply nth_error_In; exact Hi).
@@ -1495,6 +1559,39 @@ Section Real.
   Theorem variable_schedule it0 tsfs (cfgs : list (@bias_cfg R BS)) evs :
     fixed = true -> Forall var_sched_out (run_cfg Rops fixed efix it0 tsfs cfgs evs).
   Proof. intros Hf. unfold run_cfg. apply run_var_sched; [exact Hf | apply init_StInv]. Qed.
+
+  (* ---- routing: what reaches fb and what reaches fb_actual -------------------------------------------- *)
+  Definition fb_routing_out (o : @out R BS) : Prop :=
+    forall i v, nth_error (o_vars o) i = Some v ->
+      v_fb v = VFn (o_biases o) i /\ v_fba v = VFa (o_biases o) i.
+
+  Lemma run_fb_routing evs : forall (m : @mstate R BS),
+    StInv m -> Forall fb_routing_out (run Rops fixed efix m evs).
+  Proof.
+    induction evs as [|ev r IH]; intros m H; [constructor|].
+    assert (D : forall it xs, Forall fb_routing_out (snd (do_calc Rops fixed efix m it xs)) /\
+                              StInv (fst (do_calc Rops fixed efix m it xs))).
+    { intros it xs. pose proof (do_calc_closed m it xs H) as D. cbn zeta in D. destruct D as (D1 & _).
+      split; [|exact D1]. unfold do_calc.
+      pose proof (calc_closed_full it (m_vars m) (m_biases m) xs H) as C. cbn zeta in C.
+      destruct (calc Rops fixed efix it (m_vars m) (m_biases m) xs) as [[[vs bs] e] en].
+      cbn [fst snd] in *. destruct C as (C1 & _ & _ & _ & _ & _ & C7).
+      constructor; [|constructor]. unfold fb_routing_out. cbn [o_vars o_biases]. rewrite C1. exact C7. }
+    cbn [run]. destruct ev as [xs|xs|id on]; cbn [mstep].
+    - destruct (D (if m_first m then m_it m else (m_it m + 1)%Z) xs) as [D1 D2].
+      destruct (do_calc Rops fixed efix m (if m_first m then m_it m else (m_it m + 1)%Z) xs) as [m' o].
+      cbn [fst snd] in *. apply Forall_app. split; [exact D1 | apply IH; exact D2].
+    - destruct (D (m_it m) xs) as [D1 D2].
+      destruct (do_calc Rops fixed efix m (m_it m) xs) as [m' o].
+      cbn [fst snd] in *. apply Forall_app. split; [exact D1 | apply IH; exact D2].
+    - destruct (set_active_spec id on (m_biases m) [] (m_vars m) H) as (S1 & S2 & S3).
+      destruct (set_active id on (m_biases m) (m_vars m)) as [[bs vs] e]. cbn [fst snd app] in *. subst bs.
+      cbn [app]. apply IH. exact S2.
+  Qed.
+
+  Theorem fb_routing it0 tsfs (cfgs : list (@bias_cfg R BS)) evs :
+    Forall fb_routing_out (run_cfg Rops fixed efix it0 tsfs cfgs evs).
+  Proof. unfold run_cfg. apply run_fb_routing. apply init_StInv. Qed.
 
   (* ---- superposition ------------------------------------------------------------------------------------ *)
   Fixpoint select {A} (m : list bool) (l : list A) : list A :=
@@ -1530,6 +1627,13 @@ Section Real.
     intros H. unfold CF. rewrite <- rsum_map_add. apply rsum_map_ext. intros i _.
     rewrite (VF_select m bs i H). lra.
   Qed.
+
+  Lemma VFn_select m (bs : list bias) i : length m = length bs ->
+    VFn bs i = VFn (select m bs) i + VFn (select (map negb m) bs) i.
+  Proof. intros H. unfold VFn. apply rsum_select; exact H. Qed.
+  Lemma VFa_select m (bs : list bias) i : length m = length bs ->
+    VFa bs i = VFa (select m bs) i + VFa (select (map negb m) bs) i.
+  Proof. intros H. unfold VFa. apply rsum_select; exact H. Qed.
 
   Definition sel_out (m : list bool) (t : sout) : sout := let '(it, bs, xs) := t in (it, select m bs, xs).
 
